@@ -78,7 +78,7 @@ def main():
     # disturbing /repo while other work is going on)
     import tempfile
     # fixed scratch path: the Kani / replay target directories keyed by REPO path are reused incrementally across seeds
-    scratch = '/tmp/seedrepo_work'
+    scratch = os.environ.get('SEED_SCRATCH', '/tmp/seedrepo_work')
     os.makedirs(scratch, exist_ok=True)
     sh('rsync -a --delete --exclude target --exclude .git /repo/ %s/' % scratch)
     sh('rm -rf %s/.git' % scratch)
